@@ -32,7 +32,18 @@ var runtimeRules = map[string]string{
 	"C06": "cases = on the instrumented-sync build: every callback program {subsets of size <=2 of {call M, call N, MCalls, NCalls, ResetM, ResetN, ResetCalls}} per method with lockset==empty asserted at callback entry and after return, parked-callback programs (one call blocked inside MFunc while two goroutines run every operation kind; waits-for cycle detection, no timeouts), perturbed multi-goroutine stress with re-entering callbacks and lock-order graph; on the real-sync build the re-entrancy programs again, where the Go runtime's deadlock detector is the witness; distinct = distinct (interface shape, configuration) plus distinct lock-event interleavings",
 }
 
+type pendingHist struct {
+	b      *rt.Batch
+	m      rt.MockSpec
+	mock   string
+	method string
+	g      any
+	mode   string
+	evs    []lin.Event
+}
+
 type rtAgg struct {
+	hists     []pendingHist
 	mu        sync.Mutex
 	stats     map[string]int64
 	lin       map[string]int
@@ -151,6 +162,9 @@ func runRuntime(prop, tier string) int {
 				skip = append(skip, rr.LastMock)
 			}
 		}
+		if prop == "C05" {
+			checkHistories(run, agg, tier)
+		}
 		os.RemoveAll(bw)
 	}
 	agg.mu.Lock()
@@ -247,24 +261,12 @@ func handleRun(run *evid.Run, prop string, b *rt.Batch, rr rt.RunResult, agg *rt
 			if json.Unmarshal(raw, &evs) != nil {
 				continue
 			}
-			res := lin.Check(evs, 20*time.Second)
-			agg.mu.Lock()
-			agg.lin[res]++
-			agg.mu.Unlock()
 			name, _ := l["mock"].(string)
 			m := shapes[name]
 			run.Eval(fmt.Sprintf("hist|%s|%v|g=%v|resets=%v|%s", m.Shape, l["method"], l["goroutines"], l["resets"], mode))
-			if len(evs) > 0 && len(evs) < 40 {
-				run.Sample(map[string]any{"mock": name, "method": l["method"], "goroutines": l["goroutines"], "mode": mode, "linearizable": res, "history": evs})
-			}
-			switch res {
-			case "illegal":
-				pretty, _ := json.MarshalIndent(evs, "", " ")
-				run.Violation(fmt.Sprintf("tree seed=%d mock=%s method=%v mode=%s :: recorded history is not linearizable w.r.t. the append-only list model", b.Tree.Seed, name, l["method"], mode),
-					batchFiles(b, m, map[string]string{"history.json": string(pretty)}))
-			case "unknown":
-				run.Inconc("porcupine timeout")
-			}
+			agg.mu.Lock()
+			agg.hists = append(agg.hists, pendingHist{b: b, m: m, mock: name, method: fmt.Sprint(l["method"]), g: l["goroutines"], mode: mode, evs: evs})
+			agg.mu.Unlock()
 		}
 	}
 	if prop != "C05" && len(rr.Lines) > 0 {
@@ -276,4 +278,45 @@ func handleRun(run *evid.Run, prop string, b *rt.Batch, rr rt.RunResult, agg *rt
 			}
 		}
 	}
+}
+
+// checkHistories runs porcupine over the collected histories of a batch, in parallel, each under a timeout;
+// a timeout is inconclusive. The number of histories searched is capped (the direct n log n checks of the
+// driver cover all of them).
+func checkHistories(run *evid.Run, agg *rtAgg, tier string) {
+	agg.mu.Lock()
+	hs := agg.hists
+	agg.hists = nil
+	agg.mu.Unlock()
+	limit, timeout := 240, 5*time.Second
+	if tier == "thorough" {
+		limit, timeout = 1500, 20*time.Second
+	}
+	if len(hs) > limit {
+		var pick []pendingHist
+		step := float64(len(hs)) / float64(limit)
+		for i := 0; i < limit; i++ {
+			pick = append(pick, hs[int(float64(i)*step)])
+		}
+		run.Add("histories_not_searched_by_porcupine", len(hs)-len(pick))
+		hs = pick
+	}
+	runner.Parallel(len(hs), 16, func(i int) {
+		h := hs[i]
+		res := lin.Check(h.evs, timeout)
+		agg.mu.Lock()
+		agg.lin[res]++
+		agg.mu.Unlock()
+		if i%40 == 0 && len(h.evs) < 40 {
+			run.Sample(map[string]any{"mock": h.mock, "method": h.method, "goroutines": h.g, "mode": h.mode, "linearizable": res, "history": h.evs})
+		}
+		switch res {
+		case "illegal":
+			pretty, _ := json.MarshalIndent(h.evs, "", " ")
+			run.Violation(fmt.Sprintf("tree seed=%d mock=%s method=%v mode=%s :: recorded history is not linearizable w.r.t. the append-only list model", h.b.Tree.Seed, h.mock, h.method, h.mode),
+				batchFiles(h.b, h.m, map[string]string{"history.json": string(pretty)}))
+		case "unknown":
+			run.Inconc("porcupine timeout")
+		}
+	})
 }
